@@ -445,6 +445,18 @@ pub(crate) fn parse_unknown_ifdata(
                         } else {
                             // try again, looks like the number is a float instead
                             parser.undo_get_token();
+                            // an integer literal that fits no 64 bit type can't be stored as a float without changing its value
+                            let token = parser.get_token(context)?;
+                            let text = parser.get_token_text(token);
+                            if text
+                                .trim_start_matches(['+', '-'])
+                                .bytes()
+                                .all(|c| c.is_ascii_digit())
+                            {
+                                let text = text.to_string();
+                                return Err(ParserError::malformed_number(parser, context, &text));
+                            }
+                            parser.undo_get_token();
                             let floatnum = parser.get_double(context)?; // if this also returns an error, it is neither int nor float, which is a genuine parse error
                             let line_offset = parser.get_line_offset();
                             items.push(GenericIfData::Double(line_offset, floatnum));
